@@ -17,6 +17,11 @@ CONSTANTS
   BugMovedIgnored = FALSE
   BugMaxOffByOne = FALSE
   BugSelClamp = TRUE
+  BugRefreshDropsInit = FALSE
+  BugAskRunNoInit = FALSE
+  BugPoolStale = FALSE
+  BugStreamKeyless = FALSE
+  BugPromoteReplica = FALSE
 INVARIANTS TypeOK OutOfRangeFallsBackToPrimary
 CONSTRAINT GenBound
 VIEW MCView
